@@ -103,3 +103,83 @@ def run_driver(exe, script_text, cwd, timeout=120):
     env = dict(os.environ, ASAN_OPTIONS="detect_leaks=0:abort_on_error=0", UBSAN_OPTIONS="print_stacktrace=1")
     p = subprocess.run([str(exe)], input=script_text, capture_output=True, text=True, cwd=str(cwd), timeout=timeout, env=env)
     return p.returncode, p.stdout, p.stderr
+
+
+# ------------------------------------------------------------------------------------ Fex/Jac driver (C03 cross-check)
+_CVODE_BODY = r'''            N_Vector u = N_VMake_Serial(NEQUATIONS, yy, nullptr);
+            N_Vector udot = N_VNew_Serial(NEQUATIONS, nullptr);
+            for (int i = 0; i < NEQUATIONS; i++) udot->data[i] = NAN;
+            Fex(0.0, u, udot, &data);
+            printf("F"); for (int i = 0; i < NEQUATIONS; i++) printf(" %a", udot->data[i]); printf("\n");
+#if VT_SPARSE
+            SUNMatrix A = SUNSparseMatrix(NEQUATIONS, NEQUATIONS, NNZ, CSR_MAT, nullptr);
+            Jac(0.0, u, udot, A, &data, nullptr, nullptr, nullptr);
+            printf("RP"); for (int i = 0; i < NEQUATIONS + 1; i++) printf(" %ld", A->indexptrs[i]); printf("\n");
+            printf("CV"); for (int i = 0; i < NNZ; i++) printf(" %ld", A->indexvals[i]); printf("\n");
+            printf("DA"); for (int i = 0; i < NNZ; i++) printf(" %a", A->data[i]); printf("\n");
+#else
+            SUNMatrix A = SUNDenseMatrix(NEQUATIONS, NEQUATIONS, nullptr);
+            for (long i = 0; i < (long)NEQUATIONS * NEQUATIONS; i++) A->data[i] = NAN;
+            Jac(0.0, u, udot, A, &data, nullptr, nullptr, nullptr);
+            for (int i = 0; i < NEQUATIONS; i++) for (int j = 0; j < NEQUATIONS; j++) if (SM_ELEMENT_D(A, i, j) != 0.0) printf("J %d %d %a\n", i, j, SM_ELEMENT_D(A, i, j));
+#endif
+            SUNMatDestroy(A);
+            N_VDestroy(udot);
+            N_VFreeEmpty(u);
+'''
+_ODEINT_BODY = r'''            vector_type yv(NEQUATIONS), ydot(NEQUATIONS), dfdt(NEQUATIONS);
+            for (int i = 0; i < NEQUATIONS; i++) { yv[i] = yy[i]; ydot[i] = NAN; }
+            Fex fex(&data);
+            fex(yv, ydot, 0.0);
+            printf("F"); for (int i = 0; i < NEQUATIONS; i++) printf(" %a", ydot[i]); printf("\n");
+            matrix_type J(NEQUATIONS, NEQUATIONS);
+            Jac jac(&data);
+            jac(yv, J, 0.0, dfdt);
+            for (int i = 0; i < NEQUATIONS; i++) for (int j = 0; j < NEQUATIONS; j++) if (J(i, j) != 0.0) printf("J %d %d %a\n", i, j, J(i, j));
+'''
+
+
+def build_ode_driver(proj, param_values=None, sanitize=True):
+    """Compile Fex/Jac/EvalRates (+physics, constants) of the rendered project with the cross-check driver."""
+    from ..ratecase import data_fields
+
+    tmpl = (Path(__file__).resolve().parent / "driver_ode.cpp.in").read_text()
+    fields = data_fields(proj)
+    pv = param_values or {}
+    body = "".join(f"    data.{k} = {float(pv.get(k, 1.0 if v is None else v))!r};\n" for k, v in fields.items())
+    tmpl = tmpl.replace("@@DATA_FIELDS@@", body).replace("@@BACKEND_BODY@@", _ODEINT_BODY if proj.solver == "odeint" else _CVODE_BODY)
+    drv = proj.path / "vt_ode_driver.cpp"
+    drv.write_text(tmpl)
+    exe = proj.path / "vt_ode_driver"
+    want = ["naunet_ode", "naunet_fex", "naunet_jac", "naunet_rates", "naunet_physics", "naunet_constants", "naunet_utilities"]
+    srcs = sorted(str(p) for p in (proj.path / "src").glob("*.cpp") if p.stem in want)
+    flags = ["-std=c++14", "-O0", "-g", "-fno-omit-frame-pointer", "-Wno-everything", f"-DVT_SPARSE={1 if proj.method == 'sparse' else 0}"]
+    if sanitize:
+        flags += ["-fsanitize=address,undefined", "-fno-sanitize-recover=undefined"]
+    cmd = [CXX, *flags, f"-I{SHIM}", f"-I{proj.path / 'include'}", *srcs, str(drv), "-o", str(exe)]
+    p = subprocess.run(cmd, capture_output=True, text=True)
+    if p.returncode != 0:
+        raise BuildError(p.stderr[-3000:])
+    return exe
+
+
+def parse_ode_output(out):
+    blocks, cur = [], None
+    for ln in out.splitlines():
+        t = ln.split()
+        if not t:
+            continue
+        if t[0] == "K":
+            cur = {"K": [float.fromhex(x) for x in t[1:]], "J": {}, "KH": [], "KC": []}
+        elif cur is None:
+            continue
+        elif t[0] in ("KH", "KC", "F", "DA"):
+            cur[t[0]] = [float.fromhex(x) for x in t[1:]]
+        elif t[0] in ("RP", "CV"):
+            cur[t[0]] = [int(x) for x in t[1:]]
+        elif t[0] == "J":
+            cur["J"][(int(t[1]), int(t[2]))] = float.fromhex(t[3])
+        elif t[0] == "END":
+            blocks.append(cur)
+            cur = None
+    return blocks
